@@ -20,6 +20,8 @@ enforce: spifconf_init_subsystem
 backend: sat
 timeout: 300
 funcs: spifconf_register_builtin
+native: c11_replay
+native_includes: conf.c
 */
 /*@unit
 name: free_subsystem
@@ -32,6 +34,8 @@ unwind: 4
 flags: --memory-leak-check
 timeout: 300
 funcs: spifconf_free_subsystem, spifconf_free_var
+native: c11_replay
+native_includes: conf.c
 */
 /*@unit
 name: cycle_free_init
@@ -41,6 +45,8 @@ enforce: v_cycle
 replace: spifconf_free_subsystem, spifconf_init_subsystem
 backend: sat
 timeout: 300
+native: c11_replay
+native_includes: conf.c
 */
 #include "vprelude.h"
 #include "env_conf.h"
